@@ -259,8 +259,12 @@ void Local::setup_c13(World &w) {
     ext = which ? "a" : "b"; dryrun = dr == 0; casename = std::string("control file i/o ext=") + ext + (dryrun ? " -n" : " real");
   } else if (fam == "owner") {
     int sub = w.ex->choose_n(4, BK_FREE), si = w.ex->choose_n(3, BK_FREE); static const char *snd[] = {"s@src.example", "", "#@[]"};
-    addfile(".qmail-list", "&a@x.example\n&b@y.example\n", 0600); if (sub & 1) addfile(".qmail-list-owner", "&o@x.example\n", 0600); if (sub & 2) addfile(".qmail-list-owner-default", "#\n", 0600);
-    ext = "list"; dryrun = false; sender = snd[si]; casename = "owner files=" + std::to_string(sub) + " sender=[" + sender + "]";
+    // the modes of the three files vary independently: what is judged (writable -> defer, x bit -> forwards only) is the mode of the *selected* file,
+    // whatever the -owner files next to it look like
+    static const int fm[] = {0600, 0622, 0700}; int mi = w.ex->choose_n(3, BK_FREE), oi = w.ex->choose_n(3, BK_FREE), di = w.ex->choose_n(3, BK_FREE), bi = w.ex->choose_n(2, BK_FREE);
+    addfile(".qmail-list", bi ? "./mbox\n&a@x.example\n" : "&a@x.example\n&b@y.example\n", fm[mi]); if (sub & 1) addfile(".qmail-list-owner", "&o@x.example\n", fm[oi]); if (sub & 2) addfile(".qmail-list-owner-default", "#\n", fm[di]);
+    ext = "list"; dryrun = false; sender = snd[si]; char mb[80]; snprintf(mb, sizeof mb, " modes=%o/%o/%o body#%d", fm[mi], fm[oi], fm[di], bi);
+    casename = "owner files=" + std::to_string(sub) + " sender=[" + sender + "]" + mb;
   } else {   // loop + header injection
     static const char *snd[] = {"s@src.example", "evil@x.example\nX-Injected: 1", "a\"b@c", "a b@c", "x@y\n\nbody-inject", std::string("long-enough-sender-address@host.example\nX: y").c_str()};
     static const char *exs[] = {"", "a\nX-Inj: 1", "b"};
